@@ -67,6 +67,7 @@ func (s *SwapStore) Close() error {
 func (s *SwapStore) Swap(new Store) error {
 	s.mu.Lock()
 	defer s.mu.Unlock()
+	verifYield("swap.locked")
 	_, oldWritable := s.s.(WriteStore)
 	_, newWritable := new.(WriteStore)
 	if oldWritable && !newWritable {
